@@ -40,8 +40,9 @@ Flags(t) ==
 FlagsOfSeq(s, k) == IF k > Len(s) THEN {} ELSE Flags(s[k]) \cup FlagsOfSeq(s, k + 1)
 
 \* Run(t, val, loops): the leaf executions of one pass through t, in order.  A leaf execution
-\* is <<id, loops>> where loops is the sequence of enclosing loops <<ident, lo, hi>>, outermost
-\* first (loop bodies are recorded once: trip counts are not the subject here).
+\* is <<id, loops>> where loops is the sequence of enclosing loops <<ident, lo, hi, iteration>>,
+\* outermost first.  Bounds are opaque, so every loop is run for two iterations (1 and 2): enough to
+\* tell "all iterations of A, then all iterations of B" from any interleaving of the two.
 RECURSIVE Run(_, _, _), RunSeq(_, _, _, _)
 Run(t, val, loops) ==
     CASE t[1] = "L" -> <<<<t[2], loops>>>>
@@ -49,9 +50,13 @@ Run(t, val, loops) ==
       [] t[1] = "B" -> RunSeq(t[2], 1, val, loops)
       [] t[1] = "I" -> IF CondHolds(t[2], val) THEN Run(t[3], val, loops) ELSE <<>>
       [] t[1] = "E" -> IF CondHolds(t[2], val) THEN Run(t[3], val, loops) ELSE Run(t[4], val, loops)
-      [] t[1] = "F" -> Run(t[5], val, Append(loops, <<t[2], t[3], t[4]>>))
+      [] t[1] = "F" -> Run(t[5], val, Append(loops, <<t[2], t[3], t[4], 1>>))
+                       \o Run(t[5], val, Append(loops, <<t[2], t[3], t[4], 2>>))
 RunSeq(s, k, val, loops) ==
     IF k > Len(s) THEN <<>> ELSE Run(s[k], val, loops) \o RunSeq(s, k + 1, val, loops)
 
 LeafIds(run) == [k \in DOMAIN run |-> run[k][1]]
+\* the loops of an execution without / only the iteration numbers
+LoopDecl(ls) == [k \in DOMAIN ls |-> <<ls[k][1], ls[k][2], ls[k][3]>>]
+LoopIter(ls) == [k \in DOMAIN ls |-> ls[k][4]]
 =============================================================================
